@@ -81,13 +81,16 @@ func smtCase(r *rand.Rand) (keyLen int, queryKeys [][]byte, proof *smt.Proof, ro
 		return
 	}
 	nq := 1 + r.Intn(4)
+	asked := map[string]bool{}
 	for i := 0; i < nq; i++ {
-		if r.Intn(3) == 0 {
-			kb := make([]byte, keyLen)
-			r.Read(kb)
+		kb := make([]byte, keyLen)
+		r.Read(kb)
+		if r.Intn(3) != 0 {
+			kb = cpb(keys[r.Intn(len(keys))])
+		}
+		if !asked[string(kb)] {
+			asked[string(kb)] = true
 			queryKeys = append(queryKeys, kb)
-		} else {
-			queryKeys = append(queryKeys, cpb(keys[r.Intn(len(keys))]))
 		}
 	}
 	proof, err = smt.NewTrie(root, keyLen).Prove(db, queryKeys)
@@ -95,7 +98,7 @@ func smtCase(r *rand.Rand) (keyLen int, queryKeys [][]byte, proof *smt.Proof, ro
 }
 
 func trieStreams(c *mon.Ctx, h *hostile.Harness) {
-	c.Cases("smt", c.N(1200, 60000), func(k *mon.Case) {
+	c.Cases("smt", c.N(500, 60000), func(k *mon.Case) {
 		r := k.R
 		keyLen, qk, proof, root, err := smtCase(r)
 		if err != nil {
@@ -264,15 +267,15 @@ func trieStreams(c *mon.Ctx, h *hostile.Harness) {
 			return boolStr(ok) + "-" + errClass(err)
 		}}}
 		o := defaultOpts
-		o.capMutants, o.random, o.truncSample = 150, 10, 30
-		o.sampleAbove = 300
+		o.capMutants, o.random, o.truncSample = 80, 10, 20
+		o.sampleAbove = 64
 		drive(k, h, r, enc, tg, o)
 		if k.Index%300 == 0 {
 			k.Sample(map[string]any{"entry": "smt.Verify", "key_length": keyLen, "queries": len(qk), "sibling_hashes": len(proof.SiblingHashes), "proof_bytes": len(enc)})
 		}
 	})
 
-	c.Cases("rmt", c.N(1500, 80000), func(k *mon.Case) {
+	c.Cases("rmt", c.N(600, 80000), func(k *mon.Case) {
 		r := k.R
 		n := 2 + r.Intn(40)
 		if r.Intn(5) == 0 {
@@ -295,8 +298,13 @@ func trieStreams(c *mon.Ctx, h *hostile.Harness) {
 		nq := 1 + r.Intn(4)
 		var qh [][]byte
 		var qd [][]byte
+		picked := map[int]bool{}
 		for i := 0; i < nq; i++ {
 			j := r.Intn(n)
+			if picked[j] {
+				continue
+			}
+			picked[j] = true
 			qh = append(qh, cpb(leaves[j]))
 			qd = append(qd, cpb(data[j]))
 		}
@@ -415,7 +423,7 @@ func trieStreams(c *mon.Ctx, h *hostile.Harness) {
 			return boolStr(ok) + "-" + errClass(err)
 		}}}
 		o := defaultOpts
-		o.capMutants, o.random, o.truncSample, o.sampleAbove = 120, 10, 30, 200
+		o.capMutants, o.random, o.truncSample, o.sampleAbove = 80, 10, 20, 64
 		drive(k, h, r, proof.Encode(), tg, o)
 
 		// right witness
